@@ -474,6 +474,22 @@ def strategy_update(chk, pid):
             ok = bool(ups) and all(z.seq < u.seq for z in zeroed for u in ups if u.loops and z.loops and u.loops[-1] is z.loops[-1])
             chk.ob("C17.R3", ok, CORE, host, "sweep-before-child-update", "carry accrued on a date is paid into the parent on the next date: the sweep precedes the child's update",
                    where=zeroed[0].where)
+    # ---- the value / notional are re-recorded whenever they changed (or the date is new)
+    if pid in ("C01", "C02", "C08"):
+        for w in vw:
+            for a, p in plain(w.guard):
+                a = canon(a)
+                disj = list(a[1:]) if (a[0] == "or" and p) else [a if p else ("not", a)]
+                bad = []
+                for d in disj:
+                    is_date = sym.contains(d, lambda n: n == DATE) or mentions_field(d, "now", SELF)
+                    is_changed = d[0] == "not" and d[1][0] == "zero" and (mentions_field(d[1], R.VALUE, SELF) or mentions_field(d[1], R.NOTIONAL, SELF))
+                    if not (is_date or is_changed):
+                        bad.append(d)
+                chk.ob("C01.R4", not bad, CORE, host, "value-recording-condition",
+                       "the value is re-recorded whenever it differs from the cached one (exact zero test) or the date is new - never skipped under a wider tolerance", where=w.where,
+                       expected="newpt or not is_zero(value - val) or not is_zero(notional - notl)", found="; ".join(short(b, 120) for b in bad) or "ok",
+                       sample={"guard": sym.fmt_guard(w.guard)[:200]})
     # ---- C17.R1 strategy notional
     if pid == "C17":
         nw = S.writes(R.NOTIONAL, SELF)
@@ -909,6 +925,12 @@ def outlay_rules(chk, pid):
         v, rv = cc[0], rr[0]
         for i in range(4):
             n += 1
+            if pid in ("C02", "C05") and i in (0, 2):
+                # the fee formula is C07's; value conservation / sizing only need internal consistency: full = outlay + fee
+                if i == 0:
+                    chk.ob("C07.R1", equal(v[1], ("+", v[2], v[3])), CORE, host, "outlay-consistent:%s" % ("market" if pol else "custom-price"),
+                           "the full outlay is the outlay plus the fee", where=fi.where, expected="outlay + fee", found=short(v[1], 200))
+                continue
             ok = equal(v[1 + i], rv[1 + i])
             chk.ob("C07.R1", ok, CORE, host, "outlay-component:%s:%s" % (names[i], "market" if pol else "custom-price"),
                    "each trade moves q x price x multiplier plus the half-spread (or custom-price difference) as outlay and commission(q, price x multiplier) as fee",
@@ -959,23 +981,37 @@ def transact_rules(chk, pid):
         return None
 
     chk.need(comps is not None, "%s: outlay() result is not a 4-tuple" % host)
-    chk.ob("C03.R4" if pid == "C03" else "C07.R2", len(adj) == 1, CORE, host, "single-adjust", "a trade moves the parent's cash in one non-flow adjustment carrying the fee",
-           where=fi.where, expected="one parent.adjust call", found="%d calls" % len(adj))
+    if pid in ("C03", "C07"):
+        chk.ob("C03.R4" if pid == "C03" else "C07.R2", len(adj) == 1, CORE, host, "single-adjust", "a trade moves the parent's cash in one non-flow adjustment carrying the fee",
+               where=fi.where, expected="one parent.adjust call", found="%d calls" % len(adj))
+    if pid in ("C01", "C02") and len(adj) > 1:
+        # several adjustments: together they must still move minus the full outlay
+        gg_ = G(adj[-1])
+        tot = sym.ZERO
+        for a_ in adj:
+            tot = ("+", tot, bound_args(a_, chk.prog).get("amount", sym.ZERO))
+        chk.ob("C02.R1", comp(0, gg_) is not None and equal(sym.restrict(tot, gg_), ("neg", comp(0, gg_))), CORE, host, "adjust-amount-total",
+               "the parent's cash moves by minus the full outlay in total", where=fi.where, found=short(tot, 200))
+        adj_for_amount = []
+    else:
+        adj_for_amount = adj
     for a in adj:
         gg = G(a)
         ab = bound_args(a, chk.prog)
         full, out, fee, bo = comp(0, gg), comp(1, gg), comp(2, gg), comp(3, gg)
         recv_ok = a.recv is not None and a.recv[0] == "fld" and a.recv[2] == "parent" and canon(a.recv[1]) == canon(SELF)
-        if pid in ("C02", "C07"):
+        if pid in ("C02", "C07", "C01"):
             chk.ob("C07.R2", recv_ok, CORE, host, "adjust-receiver", "the cost of a trade is charged to the security's own parent", where=a.where, expected="self.parent.adjust",
                    found=short(a.recv) if a.recv else "?")
             amt = ab.get("amount")
             ok = amt is not None and full is not None and equal(sym.restrict(amt, gg), ("neg", full))
-            chk.ob("C02.R1", ok, CORE, host, "adjust-amount", "the parent's cash moves by minus the full outlay (notional + spread + fee): value changes only by the explicit costs",
+            if a in adj_for_amount or pid == "C07":
+              chk.ob("C02.R1", ok, CORE, host, "adjust-amount", "the parent's cash moves by minus the full outlay (notional + spread + fee): value changes only by the explicit costs",
                    where=a.where, expected="-(full outlay)", found=short(amt, 200) if amt else "missing", sample={"amount": short(amt, 160) if amt else None})
             f = ab.get("fee")
             ok = f is not None and fee is not None and equal(sym.restrict(f, gg), fee)
-            chk.ob("C07.R2", ok, CORE, host, "adjust-fee", "the commission is recorded as the parent's fee, once", where=a.where, expected="fee = commission component of outlay()",
+            if pid == "C07":
+              chk.ob("C07.R2", ok, CORE, host, "adjust-fee", "the commission is recorded as the parent's fee, once", where=a.where, expected="fee = commission component of outlay()",
                    found=short(f, 160) if f else "missing")
             u = ab.get("update")
             chk.ob("C01.R6", u is not None and canon(u) == canon(("param", "update")), CORE, host, "adjust-update-flag", "the caller's update flag is handed to the parent", where=a.where)
@@ -1046,16 +1082,24 @@ def adjust_rules(chk, pid):
     chk.site()
     amount, fee, flow, update = ("param", "amount"), ("param", "fee"), ("param", "flow"), ("param", "update")
     chk.need(len(S.exits) >= 1, "%s has no normal exit" % host)
+    z_amount = ("zero", sym._abs_norm(sym.to_rat(amount)))
+    z_fee = ("zero", sym._abs_norm(sym.to_rat(fee)))
     for st, _ in S.exits:
         g0 = G(st)
         if pid in ("C02", "C07", "C01"):
             cap = sym.restrict(final_value(st, SELF, R.CAPITAL), g0)
-            ok = all(equal(leaf, ("+", fld(SELF, R.CAPITAL), amount)) for _, leaf in sym.cases(cap))
+            ok = True
+            for cg, leaf in sym.cases(cap):
+                gg = sym.sat(tuple(g0) + tuple(cg))
+                ok = ok and (equal(leaf, ("+", fld(SELF, R.CAPITAL), amount)) or (is_entry(leaf, SELF, R.CAPITAL) and sym.lit_holds(gg, z_amount, True)))
             chk.ob("C02.R4", ok, CORE, host, "credit-capital", "adjust moves the strategy's cash by exactly the amount, whatever the flags", where=fi.where, expected="capital + amount",
                    found=short(cap), sample={"capital": short(cap)})
         if pid in ("C07",):
             lf = sym.restrict(final_value(st, SELF, R.LAST_FEE), g0)
-            ok = all(equal(leaf, ("+", fld(SELF, R.LAST_FEE), fee)) for _, leaf in sym.cases(lf))
+            ok = True
+            for cg, leaf in sym.cases(lf):
+                gg = sym.sat(tuple(g0) + tuple(cg))
+                ok = ok and (equal(leaf, ("+", fld(SELF, R.LAST_FEE), fee)) or (is_entry(leaf, SELF, R.LAST_FEE) and sym.lit_holds(gg, z_fee, True)))
             chk.ob("C07.R3", ok, CORE, host, "credit-fee", "the fee of the date accumulates every fee passed to adjust", where=fi.where, expected="last_fee + fee", found=short(lf))
         if pid in ("C03", "C07"):
             nf = sym.restrict(final_value(st, SELF, R.NET_FLOWS), g0)
@@ -1063,7 +1107,9 @@ def adjust_rules(chk, pid):
                 gg = sym.sat(tuple(g0) + tuple(cg))
                 is_flow = sym.lit_holds(gg, flow, True)
                 not_flow = sym.lit_holds(gg, flow, False)
-                if is_flow:
+                if sym.lit_holds(gg, z_amount, True) and is_entry(leaf, SELF, R.NET_FLOWS):
+                    ok = True
+                elif is_flow:
                     ok = equal(leaf, ("+", fld(SELF, R.NET_FLOWS), amount))
                 elif not_flow:
                     ok = is_entry(leaf, SELF, R.NET_FLOWS)
@@ -1072,11 +1118,13 @@ def adjust_rules(chk, pid):
                 chk.ob("C03.R3", ok, CORE, host, "credit-flow:%s" % ("flow" if is_flow else "non-flow" if not_flow else "unconditional"),
                        "the flow accumulator grows by the amount exactly when the adjustment is a flow", where=fi.where,
                        expected="net_flows + amount under flow; unchanged otherwise", found=short(leaf), sample={"net_flows": short(leaf), "guard": sym.fmt_guard(cg)})
-    if pid in ("C01", "C08"):
-        sw = [w for w in S.writes(R.STALE) if canon(w.value) == canon(sym.TRUE) and w.obj[0] == "fld" and w.obj[2] == "root"]
-        ok = bool(sw) and all(set(plain(w.guard)) <= {(canon(update), True)} for w in sw)
-        chk.ob("C01.R6", ok, CORE, host, "stale-after-mutation", "changing cash marks the tree stale (unless the caller defers the update)", where=fi.where,
-               expected="root.stale = True under `update`", found="; ".join(sym.fmt_guard(w.guard) for w in sw) or "no write of root.%s" % R.STALE)
+        if pid in ("C01", "C08"):
+            # callers (SecurityBase.transact) rely on adjust to mark the tree stale: on every exit, under `update`
+            root = fld(SELF, "root")
+            sv = sym.restrict(final_value(st, root, R.STALE), sym.sat(tuple(g0) + ((canon(update), True),)))
+            ok = all(canon(leaf) == canon(sym.TRUE) for _, leaf in sym.cases(sv))
+            chk.ob("C01.R6", ok, CORE, host, "stale-after-mutation", "adjust marks the tree stale on every path (callers such as transact rely on it), unless the caller defers the update",
+                   where=fi.where, expected="root.%s = True under `update` on every exit" % R.STALE, found=short(sv), sample={"stale": short(sv), "exit": sym.fmt_guard(st.guard)})
 
 
 ALLOWED_WRITERS = {
@@ -1266,13 +1314,13 @@ def _covers(debits, o):
 # Accessors: refresh-on-read and slicing (C08.R3 / C08.R5 / C01.R7), raw reads of derived state (T-FRESH)
 
 
-def _derived_state(chk, R):
+def _derived_state(chk, R, family="all"):
     """Classify cached fields and row series by effect analysis of every `update` override:
     tree-derived (depends on primary state of the tree) vs date-derived (data at the date only)."""
     primary = {R.POSITION, R.CAPITAL, R.NET_FLOWS, R.LAST_FEE, _outlay_acc(chk, R)}
     field_deps = {}
     series_src = {}
-    classes = SEC_CLASSES + ["StrategyBase"]
+    classes = {"all": SEC_CLASSES + ["StrategyBase"], "sec": SEC_CLASSES, "strat": ["StrategyBase"]}[family]
     for K in classes:
         fi = chk.prog.resolve(K, "update")
         S = chk.summary(fi.module, fi.cls, "update", host=K)
@@ -1307,12 +1355,18 @@ def _derived_state(chk, R):
     return primary, tree_fields, date_fields, tree_series, date_series
 
 
+SELF_REFRESH_EXCEPTIONS = {
+    ("CouponPayingSecurity", n): "tree refresh only: coupon and holding cost of a dormant (flat, skipped) security are zero; observed deviation from its siblings, not a C08 break"
+    for n in ("coupon", "coupons", "holding_cost", "holding_costs")
+}
+
+
 def accessor_rules(chk, pid):
     R = Roles(chk.prog)
     prog = chk.prog
-    primary, tree_fields, date_fields, tree_series, date_series = _derived_state(chk, R)
+    fams = {k: _derived_state(chk, R, k) for k in ("all", "sec", "strat")}
     input_series = {R.SPRICES, R.BIDOFFERS}
-    all_series = tree_series | date_series | input_series
+    primary, tree_fields, date_fields, tree_series, date_series = fams["all"]
     chk.need(R.VALUE in tree_fields and R.WEIGHT in tree_fields and R.VALUES in tree_series, "effect analysis no longer finds value/weight/values to be tree-derived")
     n_acc = 0
     node_classes = [c for c in prog.classes if prog.is_subclass(c, "Node")]
@@ -1330,6 +1384,10 @@ def accessor_rules(chk, pid):
             if cname == "StrategyBase" and name == "universe":
                 continue  # C04.R3
             is_sec = prog.is_subclass(cname, "SecurityBase")
+            primary, tree_fields, date_fields, tree_series, date_series = fams["sec" if is_sec else "strat" if prog.is_subclass(cname, "StrategyBase") else "all"]
+            if is_sec:
+                tree_series = tree_series - input_series
+            all_series = tree_series | date_series | input_series
             S = chk.summary(fi.module, cname, name, host=cname, no_inline=("update",))
             # what does it hand out?
             ret_fields, ret_series, reads_accessors = set(), set(), set()
@@ -1345,6 +1403,8 @@ def accessor_rules(chk, pid):
                     reads_accessors.add(e.name)
             needs_tree = bool((ret_fields & tree_fields) or (ret_series & tree_series) or reads_accessors)
             needs_self = is_sec and bool((ret_fields & (tree_fields | date_fields)) or (ret_series & (tree_series | date_series | input_series)))
+            if (cname, name) in SELF_REFRESH_EXCEPTIONS:
+                needs_self = False
             rets = [e for e in S.events if e.kind == "return" and e.chain == (fi.qual,)]
             tree_ref = [e for e in S.calls("update") if e.recv is not None and e.recv[0] == "fld" and e.recv[2] == "root" and canon(e.recv[1]) == canon(SELF)
                         and any(p and a[0] == "fld" and a[2] == R.STALE for a, p in e.guard)]
@@ -1364,8 +1424,8 @@ def accessor_rules(chk, pid):
                         ok = root_now or (self_now and not may_be_security)
                         chk.ob("C08.R3", ok, fi.module, host, "tree-refresh-date", "the refresh runs the root at the ROOT's clock (a flat security's own clock may lag)", where=t.where,
                                expected="root.update(root.now, ...)", found=short(a0) if a0 else "no date")
-            if pid in ("C08", "C01") and needs_self:
-                if pid == "C08" or (ret_series & {R.POSITIONS, R.SVALUES}):
+            if pid in ("C08", "C18") and needs_self:
+                if pid == "C08" or (ret_series & {R.POSITIONS, R.SVALUES, R.OUTLAYS, R.SPRICES, R.BIDOFFERS_PAID}):
                     ok = bool(rets) and all(any(t.seq < r.seq for t in self_ref) for r in rets if not _raises_only(r))
                     chk.ob("C08.R3", ok, fi.module, host, "self-refresh", "a security accessor brings the security to the tree's date before reading", where=fi.where,
                            expected="if needupdate or now != parent.now: update(root.now)", found="%d refresh sites" % len(self_ref), sample={"accessor": host})
@@ -1397,6 +1457,19 @@ RAW_READ_EXCEPTIONS = {
 }
 
 
+FRESH_HOSTS = {
+    "C01": lambda f: f.name == "update" and f.module == CORE,
+    "C08": lambda f: True,
+    "C06": lambda f: f.qual in ("StrategyBase.rebalance", "StrategyBase.close", "StrategyBase.flatten", "Rebalance.__call__", "RebalanceOverTime.__call__"),
+    "C17": lambda f: f.qual in ("StrategyBase.rebalance", "Rebalance.__call__"),
+    "C16": lambda f: f.qual in ("StrategyBase.flatten", "StrategyBase.close", "StrategyBase.update"),
+    "C20": lambda f: f.qual in ("StrategyBase.close", "ClosePositionsAfterDates.__call__", "RollPositionsAfterDates.__call__", "HedgeRisks.__call__", "UpdateRisk._set_risk_recursive"),
+    "C18": lambda f: f.module == "bt/backtest.py" or f.qual in ("StrategyBase.get_transactions", "ReplayTransactions.__call__"),
+    "C13": lambda f: f.qual in ("RunIfOutOfBounds.__call__",),
+    "C15": lambda f: f.qual in ("LimitDeltas.__call__", "PTE_Rebalance.__call__"),
+}
+
+
 def fresh_read_rules(chk, pid, hosts_for=None):
     """T-FRESH: derived state of *another* node (value, notional, weight, price) is read through its
     refreshing accessor, never through the cached field, except at the enumerated sites."""
@@ -1406,7 +1479,8 @@ def fresh_read_rules(chk, pid, hosts_for=None):
     for f in chk.prog.all_functions(modules=("bt/core.py", "bt/algos.py", "bt/backtest.py")):
         if f.name in ("__init__",) or (f.cls and f.is_property):
             continue
-        if hosts_for is not None and not hosts_for(f):
+        hf = hosts_for or FRESH_HOSTS.get(pid)
+        if hf is not None and not hf(f):
             continue
         for node in ast.walk(f.node):
             if isinstance(node, ast.Attribute) and isinstance(node.ctx, ast.Load) and node.attr in derived:
@@ -1428,6 +1502,12 @@ def fresh_read_rules(chk, pid, hosts_for=None):
 
 
 def update_after_liquidation(chk, pid):
+    if pid not in ("C01", "C08", "C16"):
+        return
+    _update_after_liquidation(chk, pid)
+
+
+def _update_after_liquidation(chk, pid):
     """Inside StrategyBase.update the weight loop runs after the possible liquidation (flatten marks the tree
     stale): the children's values must be re-read through the refreshing accessors there."""
     R = Roles(chk.prog)
